@@ -13,6 +13,27 @@ struct VS
   int (*fn)(long);
 };
 
+// a second registered struct whose guest size (12 under lp32) is NOT a multiple of its application alignment (8): strides and
+// array placement of its guest image cannot be derived from the application's alignment
+struct VT
+{
+  long x;
+  long y;
+  long z;
+};
+struct VT_lp32
+{
+  int32_t x;
+  int32_t y;
+  int32_t z;
+};
+struct VT_wide
+{
+  int64_t x;
+  int64_t y;
+  int64_t z;
+};
+
 // guest layout under lp32 integers with 16-bit pointers
 struct VS_lp32_p16
 {
@@ -62,4 +83,9 @@ struct VS_wide_p16
   f(short[3], arr, FIELD_NORMAL, ##__VA_ARGS__) g()                                                                \
   f(int (*)(long), fn, FIELD_NORMAL, ##__VA_ARGS__) g()
 
-#define sandbox_fields_reflection_vlib_allClasses(f, ...) f(VS, vlib, ##__VA_ARGS__)
+#define sandbox_fields_reflection_vlib_class_VT(f, g, ...)                                                         \
+  f(long, x, FIELD_NORMAL, ##__VA_ARGS__) g()                                                                      \
+  f(long, y, FIELD_NORMAL, ##__VA_ARGS__) g()                                                                      \
+  f(long, z, FIELD_NORMAL, ##__VA_ARGS__) g()
+
+#define sandbox_fields_reflection_vlib_allClasses(f, ...) f(VS, vlib, ##__VA_ARGS__) f(VT, vlib, ##__VA_ARGS__)
